@@ -529,6 +529,43 @@ Proof.
   rewrite Ecomp. simpl. auto.
 Qed.
 
+(** try_unique keeps the machine running *)
+Lemma try_unique_keeps_running d s h x : Good s -> running s -> get_h s h = Some x -> hk x = KArc -> hm x = MOwned ->
+  dead (fst (step d s (OTryUnique h))) = false /\ skip (fst (step d s (OTryUnique h))) = 0%nat.
+Proof.
+  intros G [Hd Hs] Hx Hk Hm. unfold step. rewrite Hd, Hs, Hx, Hk, Hm. simpl.
+  rewrite run_lib_fst. apply get_h_some in Hx.
+  destruct s as [[hp lg u nt] t fr sk dd]. unfold Good in G. simpl in *.
+  destruct (handle_block _ _ _ _ _ G Hx) as (b & Hb & Al & Ok & Cn & Pos & Le).
+  destruct (try_unique_eq hp lg u nt (hl x) b d Hb Al) as (lg1 & E1). rewrite E1.
+  destruct (b_cnt b =? 1); simpl; auto.
+Qed.
+
+
+(** the two-step path (try_unique, then UniqueArc::into_inner on the handle it returned) and try_unwrap agree for a
+    sole owner: same handle table, same heap, same verdict, the same value handed out *)
+Theorem try_unique_then_into_inner_is_try_unwrap d s h x :
+  Inv s -> running s -> get_h s h = Some x -> hk x = KArc -> hm x = MOwned ->
+  owners (tbl s) (hl x) = 1%nat ->
+  let s1 := fst (step d s (OTryUnique h)) in
+  let r2 := step d s1 (OIntoInner h) in let r := step d s (OTryUnwrap h) in
+  tbl (fst r2) = tbl (fst r) /\ heap (ms (fst r2)) = heap (ms (fst r)) /\ hd 9 (snd r2) = hd 9 (snd r) /\ nth 1 (snd r2) 9 = nth 1 (snd r) 9.
+Proof.
+  intros I [Hd Hs] Hx Hk Hm O s1 r2 r.
+  pose proof (step_inv d s (OTryUnique h) I) as I1. fold s1 in I1.
+  destruct (try_unique_keeps_running d s h x (I Hd) (conj Hd Hs) Hx Hk Hm) as [Hd1 Hs1]. fold s1 in Hd1, Hs1.
+  destruct (try_unique_verdict d s h x (I Hd) (conj Hd Hs) Hx Hk Hm) as [U _]. specialize (U O). destruct U as (_ & Ht & Hh). fold s1 in Ht, Hh.
+  destruct (try_unwrap_conserves d s h x (I Hd) (conj Hd Hs) Hx Hk Hm) as (b & tk & Hb & Hc & W). destruct W as [W _]. specialize (W O). destruct W as (Wo & Wt & Wh & _). fold r in Wo, Wt, Wh.
+  set (x1 := mkH KUniq (hl x) MOwned) in *.
+  assert (Hx1 : get_h s1 h = Some x1).
+  { unfold get_h. rewrite Ht. unfold get_h in Hx. destruct (nth_error (tbl s) h) eqn:E; [|discriminate].
+    rewrite nth_upd_same; [reflexivity|]. apply nth_error_Some. congruence. }
+  destruct (into_inner_conserves d s1 h x1 (I1 Hd1) (conj Hd1 Hs1) Hx1 eq_refl eq_refl) as (b' & tk' & Hb' & Hc' & Vo & Vt & Vh & _).
+  fold r2 in Vo, Vt, Vh. simpl hl in *. rewrite Hh in Hb'. rewrite Hb in Hb'. injection Hb' as <-. rewrite Hc in Hc'. injection Hc' as <-.
+  rewrite Vt, Wt, Ht, upd_upd. rewrite Vh, Wh, Hh. rewrite Vo, Wo. repeat split; reflexivity.
+Qed.
+
+
 (** unwrap_or_clone: a sole owner gets the value itself; otherwise exactly one Clone call, this owner is released
     (the old value stays with the others, untouched), and the clone is returned; a panicking Clone still
     releases this owner *)
